@@ -292,6 +292,15 @@ def expression(ctx, case):
     saved = {k: matcher.__dict__.get(k) for k in ('int', 'float')}
     matcher.int, matcher.float = symx.sym_int, symx.sym_float
     try:
+        if e[0] and idx % 3 == 0 and ctx.choose([False, True], 'earlier_session'):
+            # earlier in the session the user excluded this expression's own first alternative and joined that with something else (what two
+            # filter commands do). Matchers parsed later must not be affected by it
+            try:
+                old = matcher.parse(R.r_expr(([], [e[0][0]])))
+                matcher.join(matcher.parse('zz_a, zz_b'), old).simplify()
+                matcher.join(matcher.parse('zz_c(1, 2)'), matcher.parse('zz_d')).simplify()
+            except RuntimeError:
+                pass
         parsed = matcher.parse(text)
         simp = matcher.parse(text).simplify()
         msg = _build_message(ctx, e, max_args)
